@@ -23,9 +23,9 @@ import warnings
 def _outcome_of(fn, scrub=None):
     from bbv import canon
     try:
-        with warnings.catch_warnings():
-            warnings.simplefilter("ignore")
-            p = fn()
+        # (no warnings.catch_warnings() around the call: it would put back an interpreter-wide warnings filter that a load
+        # leaves behind, and with it the effect of that filter on later loads -- the child silences warnings once, at its start)
+        p = fn()
         return {"ok": canon.snapshot(p)}, p
     except RecursionError:
         return {"exc": "RecursionError", "msg": ""}, None
@@ -44,6 +44,7 @@ def run_steps(steps):
     returned = []      # [program, snapshot]
     shared = []
     workdir = [None]
+    warnings.simplefilter("ignore")        # this child only: it executes one request and exits
     try:
         return _run(steps, outcomes, returned, shared, workdir)
     finally:
